@@ -557,6 +557,21 @@ substitute_decl(CPPDeclaration::SubstDecl &subst,
  */
 CPPType *CPPScope::
 find_type(const string &name, bool recurse) const {
+  UsingVisited visited;
+  return find_type(name, recurse, visited);
+}
+
+/**
+ * As above; visited holds the scopes this lookup has already been through.
+ */
+CPPType *CPPScope::
+find_type(const string &name, bool recurse, UsingVisited &visited) const {
+  if (!visited.insert(this).second) {
+    // This scope is already being searched, further up a chain of
+    // using-directives.
+    return nullptr;
+  }
+
   Types::const_iterator ti;
   ti = _types.find(name);
   if (ti != _types.end()) {
@@ -565,7 +580,7 @@ find_type(const string &name, bool recurse) const {
 
   Using::const_iterator ui;
   for (ui = _using.begin(); ui != _using.end(); ++ui) {
-    CPPType *type = (*ui)->find_type(name, false);
+    CPPType *type = (*ui)->find_type(name, false, visited);
     if (type != nullptr) {
       return type;
     }
@@ -599,6 +614,22 @@ find_type(const string &name, bool recurse) const {
 CPPType *CPPScope::
 find_type(const string &name, CPPDeclaration::SubstDecl &subst,
           CPPScope *global_scope, bool recurse) const {
+  UsingVisited visited;
+  return find_type(name, subst, global_scope, recurse, visited);
+}
+
+/**
+ * As above; visited holds the scopes this lookup has already been through.
+ */
+CPPType *CPPScope::
+find_type(const string &name, CPPDeclaration::SubstDecl &subst,
+          CPPScope *global_scope, bool recurse, UsingVisited &visited) const {
+  if (!visited.insert(this).second) {
+    // This scope is already being searched, further up a chain of
+    // using-directives.
+    return nullptr;
+  }
+
   Types::const_iterator ti;
   ti = _types.find(name);
   if (ti != _types.end()) {
@@ -609,7 +640,7 @@ find_type(const string &name, CPPDeclaration::SubstDecl &subst,
 
   Using::const_iterator ui;
   for (ui = _using.begin(); ui != _using.end(); ++ui) {
-    CPPType *type = (*ui)->find_type(name, subst, global_scope, false);
+    CPPType *type = (*ui)->find_type(name, subst, global_scope, false, visited);
     if (type != nullptr) {
       return type;
     }
@@ -643,6 +674,22 @@ find_type(const string &name, CPPDeclaration::SubstDecl &subst,
  */
 CPPScope *CPPScope::
 find_scope(const string &name, CPPScope *global_scope, bool recurse) const {
+  UsingVisited visited;
+  return find_scope(name, global_scope, recurse, visited);
+}
+
+/**
+ * As above; visited holds the scopes this lookup has already been through.
+ */
+CPPScope *CPPScope::
+find_scope(const string &name, CPPScope *global_scope, bool recurse,
+           UsingVisited &visited) const {
+  if (!visited.insert(this).second) {
+    // This scope is already being searched, further up a chain of
+    // using-directives.
+    return nullptr;
+  }
+
   Namespaces::const_iterator ni = _namespaces.find(name);
   if (ni != _namespaces.end()) {
     return (*ni).second->get_scope();
@@ -698,7 +745,7 @@ find_scope(const string &name, CPPScope *global_scope, bool recurse) const {
 
   Using::const_iterator ui;
   for (ui = _using.begin(); ui != _using.end(); ++ui) {
-    CPPScope *scope = (*ui)->find_scope(name, global_scope, false);
+    CPPScope *scope = (*ui)->find_scope(name, global_scope, false, visited);
     if (scope != nullptr) {
       return scope;
     }
@@ -750,6 +797,21 @@ find_scope(const string &name, CPPDeclaration::SubstDecl &subst,
  */
 CPPDeclaration *CPPScope::
 find_symbol(const string &name, bool recurse) const {
+  UsingVisited visited;
+  return find_symbol(name, recurse, visited);
+}
+
+/**
+ * As above; visited holds the scopes this lookup has already been through.
+ */
+CPPDeclaration *CPPScope::
+find_symbol(const string &name, bool recurse, UsingVisited &visited) const {
+  if (!visited.insert(this).second) {
+    // This scope is already being searched, further up a chain of
+    // using-directives.
+    return nullptr;
+  }
+
   if (_struct_type != nullptr && name == get_simple_name()) {
     return _struct_type;
   }
@@ -779,7 +841,7 @@ find_symbol(const string &name, bool recurse) const {
 
   Using::const_iterator ui;
   for (ui = _using.begin(); ui != _using.end(); ++ui) {
-    CPPDeclaration *decl = (*ui)->find_symbol(name, false);
+    CPPDeclaration *decl = (*ui)->find_symbol(name, false, visited);
     if (decl != nullptr) {
       return decl;
     }
@@ -812,6 +874,21 @@ find_symbol(const string &name, bool recurse) const {
  */
 CPPDeclaration *CPPScope::
 find_template(const string &name, bool recurse) const {
+  UsingVisited visited;
+  return find_template(name, recurse, visited);
+}
+
+/**
+ * As above; visited holds the scopes this lookup has already been through.
+ */
+CPPDeclaration *CPPScope::
+find_template(const string &name, bool recurse, UsingVisited &visited) const {
+  if (!visited.insert(this).second) {
+    // This scope is already being searched, further up a chain of
+    // using-directives.
+    return nullptr;
+  }
+
   Templates::const_iterator ti;
   ti = _templates.find(name);
   if (ti != _templates.end()) {
@@ -820,7 +897,7 @@ find_template(const string &name, bool recurse) const {
 
   Using::const_iterator ui;
   for (ui = _using.begin(); ui != _using.end(); ++ui) {
-    CPPDeclaration *decl = (*ui)->find_template(name, false);
+    CPPDeclaration *decl = (*ui)->find_template(name, false, visited);
     if (decl != nullptr) {
       return decl;
     }
